@@ -10,7 +10,7 @@ TRUST = [
 
 CHECKS = {
     "C10": {
-        "test": "TestC10", "level": "exploration", "checks": (4000, 200000), "timeout": (600, 3600),
+        "test": "TestC10", "level": "exploration", "checks": (2500, 150000), "timeout": (600, 3600),
         "rule": "exhaustive sweeps of all 2^8/2^16/2^24 raw integer values in both signedness modes (2^32 in the thorough tier) and all 256 YEAR bytes "
                 "through CellBytes vs. the arithmetic two's-complement reading; plus rapid-generated (type, metadata, value, mapper signedness, surrounding bytes) "
                 "cases for 32/64-bit integers (boundaries + uniform), FLOAT/DOUBLE bit patterns (zeros, subnormals, extremes, powers of 2 and 10, uniform finite), "
